@@ -255,17 +255,19 @@ func gen(g *hx.Gen) {
 		for _, k := range []int64{0, 1, -1, 5} {
 			g.Emit("dbl1 a=%d", k)
 			g.Emit("dbl2 a=%d", k)
+			g.StatN("op.dbl", 2)
 		}
 		for i := 0; i < 12; i++ {
 			g.Emit("dbl1 a=%s", scalar(g))
 			g.Emit("dbl2 a=%s", scalar(g))
+			g.StatN("op.dbl", 2)
 		}
 	}
 
 	for _, ab := range [][2]int64{{5, -1}, {-1, -1}, {-1, 1}, {1, 1}, {0, 7}, {7, 0}} { // b = −1: negated affine generator
 		g.Emit("pair a=%d b=%d", ab[0], ab[1])
 	}
-	nUn := g.Count(450, 20000)
+	nUn := g.Count(450, 12000)
 	for i := 0; i < nUn; i++ {
 		if r.Chance(3, 5) {
 			g.Emit("g1u m=%s", hx.Hex(mangle(g, g1Point(g), 2, "g1u")))
@@ -273,7 +275,7 @@ func gen(g *hx.Gen) {
 			g.Emit("g2u m=%s", hx.Hex(mangle(g, g2Point(g), 4, "g2u")))
 		}
 	}
-	nOps := g.Count(170, 9000)
+	nOps := g.Count(170, 5000)
 	for i := 0; i < nOps; i++ {
 		switch r.Intn(11) {
 		case 8:
@@ -304,7 +306,7 @@ func gen(g *hx.Gen) {
 			g.Emit("gt e=%s f=%s k=%s", hx.Hex(hx.Pick(r, gtPool)), hx.Hex(hx.Pick(r, gtPool)), scalar(g))
 		}
 	}
-	nPair := g.Count(28, 2500)
+	nPair := g.Count(28, 1500)
 	for i := 0; i < nPair; i++ {
 		if r.Chance(2, 3) {
 			g.Stat("op.pair")
